@@ -523,6 +523,11 @@ def loop_exits(body, nodes):
 def operand_ty(body, op):
     if 'p' in op and len(op['p']) == 1:
         return body.local_ty(op['p'][0])
+    if 'p' in op and len(op['p']) == 2 and op['p'][1] == '*':
+        t = body.local_ty(op['p'][0])
+        m = re.match(r"^&(?:'[a-z_]+ )?(?:mut )?(.*)$", t)
+        if m:
+            return m.group(1)
     if 'ty' in op:
         return op['ty']
     return None
